@@ -397,7 +397,119 @@ func CowRMW(c *core.Ctx, rule string) {
 			}
 		}
 	}
+	// control dependence (double-checked initialisation): the innermost condition that decides whether a Store
+	// happens, if it looks at the cell at all, looks at a value read under the lock
+	nDec := 0
+	for _, fn := range methods {
+		lf := analyzeLocks(fn)
+		name := fnName(fn)
+		isRead := func(v ssa.Value) bool {
+			call, ok := v.(*ssa.Call)
+			if !ok {
+				return false
+			}
+			if isCellLoad(call) {
+				return true
+			}
+			cf := calleeFunc(&call.Call)
+			return cf != nil && loaders[cf]
+		}
+		// reads(v): cell reads in the backward slice of v (operands of comparisons, phis, conversions)
+		var slice func(v ssa.Value, seen map[ssa.Value]bool, out *[]*ssa.Call)
+		slice = func(v ssa.Value, seen map[ssa.Value]bool, out *[]*ssa.Call) {
+			if v == nil || seen[v] {
+				return
+			}
+			seen[v] = true
+			if isRead(v) {
+				*out = append(*out, v.(*ssa.Call))
+				return
+			}
+			switch x := v.(type) {
+			case *ssa.BinOp:
+				slice(x.X, seen, out)
+				slice(x.Y, seen, out)
+			case *ssa.UnOp:
+				slice(x.X, seen, out)
+			case *ssa.Phi:
+				for _, e := range x.Edges {
+					slice(e, seen, out)
+				}
+			case *ssa.ChangeType:
+				slice(x.X, seen, out)
+			case *ssa.ChangeInterface:
+				slice(x.X, seen, out)
+			case *ssa.MakeInterface:
+				slice(x.X, seen, out)
+			case *ssa.TypeAssert:
+				slice(x.X, seen, out)
+			case *ssa.Extract:
+				slice(x.Tuple, seen, out)
+			case *ssa.Call:
+				// len(m), m.Size() …: look through the arguments / receiver
+				for _, a := range x.Call.Args {
+					slice(a, seen, out)
+				}
+				if x.Call.IsInvoke() {
+					slice(x.Call.Value, seen, out)
+				}
+			}
+		}
+		k := 0
+		for _, b := range fn.Blocks {
+			for _, ins := range b.Instrs {
+				call, ok := ins.(*ssa.Call)
+				if !ok {
+					continue
+				}
+				callee := call.Call.StaticCallee()
+				if callee == nil || callee.Pkg == nil || callee.Pkg.Pkg.Path() != "sync/atomic" || callee.Signature.Recv() == nil || callee.Name() != "Store" {
+					continue
+				}
+				for d := b.Idom(); d != nil; d = d.Idom() {
+					if len(d.Instrs) == 0 {
+						continue
+					}
+					ifi, ok := d.Instrs[len(d.Instrs)-1].(*ssa.If)
+					if !ok {
+						continue
+					}
+					// the Store must lie on exactly one side of d
+					side := 0
+					for _, sc := range d.Succs {
+						if sc == b || sc.Dominates(b) {
+							side++
+						}
+					}
+					if side != 1 {
+						continue
+					}
+					var reads []*ssa.Call
+					slice(ifi.Cond, map[ssa.Value]bool{}, &reads)
+					if len(reads) == 0 {
+						continue
+					}
+					k++
+					nDec++
+					key := name + "/decision#" + itoa(k)
+					unlocked := ""
+					for _, r := range reads {
+						if len(lf.held[r]) == 0 {
+							unlocked = instrPosString(c, r)
+						}
+					}
+					if unlocked != "" {
+						c.Add(rule, key, instrPos(ifi), core.Violated, "the condition that decides whether the Store at "+instrPosString(c, ins)+" happens examines a value read from the cell at "+unlocked+", before the mutex was taken: another goroutine may have published a snapshot in between, which this Store then overwrites (lost update)")
+					} else {
+						c.Add(rule, key, instrPos(ifi), core.Discharged, "the deciding condition examines a value read under the lock")
+					}
+					break // innermost deciding condition only
+				}
+			}
+		}
+	}
 	c.Floor(rule, "snapshot reads feeding a Store", n, 1)
+	c.Floor(rule, "conditions deciding a Store on a cell read", nDec, 1)
 }
 
 // CowOnePublish — R-ONE-PUBLISH: one operation, one publication.
@@ -542,3 +654,5 @@ func CowOnePublish(c *core.Ctx, rule string) {
 	}
 	c.Floor(rule, "publishing methods", n, 4)
 }
+
+func instrPosString(c *core.Ctx, ins ssa.Instruction) string { return c.RelPos(instrPos(ins)) }
